@@ -325,8 +325,17 @@ def run(ctx):  # noqa: C901, PLR0912, PLR0915
         helper = 'remove_sub_element' in wsrc or '_get_element_by_child_name' in wsrc or 'super()' in wsrc or 'super()' in rsrc
         okl = (loc_w == loc_r and loc_w) or (helper and loc_r <= {'_sub_element_name'} and loc_w <= {'_sub_element_name'})
         # converter symmetry
-        conv_w = {m for m in ('to_xml', 'elem_to_xml') if f'_converter.{m}(' in wsrc or f'.{m}(' in wsrc}
-        conv_r = {m for m in ('to_py', 'elem_to_py') if f'_converter.{m}(' in rsrc or f'.{m}(' in rsrc}
+        # (called or handed on as a bound method: `map(self._converter.elem_to_py, ...)`)
+        conv_w = {n.attr for n in ast.walk(wr.node) if isinstance(n, ast.Attribute) and n.attr in ('to_xml', 'elem_to_xml')}
+        conv_r = {n.attr for n in ast.walk(rd.node) if isinstance(n, ast.Attribute) and n.attr in ('to_py', 'elem_to_py')}
+        # a conversion without a counterpart is no asymmetry when it is the identity for the converter this class is
+        # constructed with (QName attributes: ClassCheckConverter.to_xml returns its argument, lxml writes the QName)
+        for a, b in (('to_xml', 'to_py'), ('elem_to_xml', 'elem_to_py')):
+            if (a in conv_w) != (b in conv_r):
+                lone = a if a in conv_w else b
+                if _converter_method_is_identity(repo, q, lone):
+                    conv_w.discard(a)
+                    conv_r.discard(b)
         okc = (('to_xml' in conv_w) == ('to_py' in conv_r)) and (('elem_to_xml' in conv_w) == ('elem_to_py' in conv_r))
         is_list = any(b in repo.mro(q) for b in list_bases)
         truthy = []
@@ -355,6 +364,10 @@ def run(ctx):  # noqa: C901, PLR0912, PLR0915
                witness={'writer': sorted(conv_w), 'reader': sorted(conv_r)})
     ctx.floor('C05.R2', n_w, 15, 'reader/writer pairs')
 
+    from . import common
+    common.implied_value_only_for_none(ctx, 'C05.R2')
+    from .c18 import decimal_lexical_rules
+    decimal_lexical_rules(ctx, 'C05.R2')   # xsd:decimal values survive the writer (18 significant digits)
     # ------------------------------------------------------------------ R4
     n_att = 0
     for q in sorted(desc):
@@ -437,6 +450,31 @@ def run(ctx):  # noqa: C901, PLR0912, PLR0915
 
 
 # ---------------------------------------------------------------------- self-test seeds
+def _converter_method_is_identity(repo, q, method) -> bool:
+    """The converter that descriptor class q hands to its base class in __init__ is a class of dataconverters whose
+    `method` returns its argument unchanged."""
+    DC = 'sdc11073.xml_types.dataconverters'
+    init = repo.resolve_method(q, '__init__')
+    if init is None:
+        return False
+    conv = None
+    for c in calls_in(init.node):
+        for a in list(c.args) + [k.value for k in c.keywords]:
+            e = a.func if isinstance(a, ast.Call) else a
+            nm = e.id if isinstance(e, ast.Name) else e.attr if isinstance(e, ast.Attribute) else None
+            if nm and f'{DC}.{nm}' in repo.classes:
+                conv = f'{DC}.{nm}'
+    if conv is None:
+        return False
+    m = repo.resolve_method(conv, method)
+    if m is None:
+        return False
+    body = [st for st in m.node.body if not (isinstance(st, ast.Expr) and isinstance(st.value, ast.Constant))]
+    params = [a.arg for a in m.node.args.args if a.arg not in ('self', 'cls')]
+    return len(body) == 1 and isinstance(body[0], ast.Return) and isinstance(body[0].value, ast.Name) and \
+        params and body[0].value.id == params[0]
+
+
 from selftest import seed  # noqa: E402
 
 _PM = 'src/sdc11073/xml_types/pm_types.py'
